@@ -1147,3 +1147,92 @@ def check_mod_compare(prog, rep, rels, rule='INDEX-mod-compare'):
                               (unparse(c)[:50], b, b, b), c.lineno)
     rep.instance(rule, {'modules': list(rels), 'functions_scanned': n})
     return n
+
+
+# ---------------------------------------------------------------------------------------------
+# LOOP-stale-read: inside a loop a per-item variable N is READ before anything in that iteration
+# assigns it, although the loop body assigns N later on, and N has no initialisation dedicated to
+# the loop: every binding outside the loop sits inside some other, already finished loop. The read
+# therefore sees the value left by the last iteration of another loop (first pass) or by the
+# previous pass. Comprehension variables are excluded; explicitly initialised loop-carried state
+# (`prev = None` before the loop) is not affected.
+import ast as _ast_sl
+ast = _ast_sl
+from .core import params as _params_sl
+params = _params_sl
+def stale_loop_reads(f):
+    """yield (name, use_node, loop) for stale loop-carried reads"""
+    parents = {}
+    for p in ast.walk(f):
+        for c in ast.iter_child_nodes(p):
+            parents[c] = p
+    def loops_of(n):
+        out = []
+        while n in parents:
+            n = parents[n]
+            if isinstance(n, (ast.For, ast.While)):
+                out.append(n)
+            if isinstance(n, (ast.FunctionDef, ast.Lambda)) and n is not f:
+                return None
+        return out
+    def in_comp(n):
+        while n in parents:
+            n = parents[n]
+            if isinstance(n, (ast.ListComp, ast.SetComp, ast.DictComp, ast.GeneratorExp)):
+                return True
+        return False
+    defs = {}
+    compnames = set()
+    for n in ast.walk(f):
+        if isinstance(n, ast.Name) and isinstance(n.ctx, ast.Store):
+            if in_comp(n):
+                compnames.add(n.id)
+            else:
+                defs.setdefault(n.id, []).append(n)
+    ps = set(params(f))
+    hits = []
+    for name, dl in defs.items():
+        if name in ps or name in compnames: continue
+        for u in ast.walk(f):
+            if not (isinstance(u, ast.Name) and u.id == name and isinstance(u.ctx, ast.Load)): continue
+            lu = loops_of(u)
+            if not lu: continue
+            for L in lu:   # innermost first
+                inside = [d for d in dl if L in (loops_of(d) or []) or any(d is t for t in ast.walk(L.target)) if True] if isinstance(L, ast.For) else [d for d in dl if L in (loops_of(d) or [])]
+                if isinstance(L, ast.For) and any(d is t for d in dl for t in ast.walk(L.target)):
+                    break   # the loop's own variable
+                if not inside: continue
+                # defs inside L that precede u textually at the same or enclosing level (dominate approx): any def inside L with lineno < u.lineno
+                before = [d for d in inside if (d.lineno, d.col_offset) < (u.lineno, u.col_offset)]
+                after = [d for d in inside if (d.lineno, d.col_offset) > (u.lineno, u.col_offset)]
+                if before or not after: break
+                # self-referential accumulators: the statement defining reads the name
+                outside = [d for d in dl if d not in inside]
+                if not outside: break   # would be NameError on first iteration -> other analysis
+                if all(loops_of(d) and not set(loops_of(d)) <= set(lu) for d in outside):
+                    hits.append((name, u, L))
+                break
+    return hits
+
+
+def check_stale_loop_reads(prog, rep, rels, rule='LOOP-stale-read'):
+    from .core import unparse
+    n = 0
+    for rel in rels:
+        m = prog.module(rel)
+        rep.unit(m)
+        for q, f in m.functions.items():
+            n += 1
+            seen = set()
+            for name, u, L in stale_loop_reads(f):
+                if (name, L.lineno) in seen:
+                    continue
+                seen.add((name, L.lineno))
+                rep.violation(rule, m, q, 'stale-read:' + name,
+                              '`%s` is read at line %d inside the loop at line %d before this '
+                              'iteration assigns it; the loop assigns it later and every other '
+                              'binding lies inside another loop: the value seen is a left-over of '
+                              'that loop / of the previous pass' % (name, u.lineno, L.lineno),
+                              u.lineno)
+    rep.instance(rule, {'modules': list(rels), 'functions_scanned': n})
+    return n
